@@ -436,6 +436,18 @@ func (x *Conn) Kill(rst bool) {
 	_ = x.nc.Close()
 }
 
+// CloseWrite sends FIN after everything written so far and keeps reading until the peer closes: the peer receives every
+// byte written before (a full close could answer a late write of the peer with a reset).
+func (x *Conn) CloseWrite() {
+	x.wmu.Lock()
+	defer x.wmu.Unlock()
+	if t, ok := x.nc.(*net.TCPConn); ok {
+		_ = t.CloseWrite()
+	} else {
+		_ = x.nc.Close()
+	}
+}
+
 // Mute makes the connection read but never answer anything any more.
 func (x *Conn) Mute() { atomic.StoreInt32(&x.muted, 1) }
 
